@@ -132,6 +132,17 @@ CHECKS = {
              "HmsVM with all its invariants holding at every instruction.",
         note="Trusted: the per-opcode rule table of HmsVM (transcribed from the instruction set), the hooks.",
         design="5/C09"),
+    "C05": dict(
+        technique="input space enumerated from the TLA+ lexical specification (HmsLex alphabet strings, lexeme "
+                  "adjacencies via TLC) plus token-level mutations of spec-rendered programs; totality observed in "
+                  "memory-limited isolated workers",
+        text="TLC enumerates every string over HmsLex's class alphabet up to length 3/4 and the lexeme adjacencies of "
+             "its catalogue; the harness adds every truncation and single-token deletion / replacement / insertion of "
+             "the valid programs rendered from the spec-AST families and of the repository's .hms files, nesting depth "
+             "up to 1000 and 64 KiB inputs. Each input is lexed, parsed and analysed as entry module and as imported "
+             "module text; a worker that dies, exhausts memory or does not answer is a violation for that input.",
+        note="The predicate is totality only; the specification supplies the input space, not an expected result.",
+        design="5/C05"),
 }
 
 NOT_YET = {}
